@@ -129,16 +129,20 @@ fn make_case(c: &RCase) -> Option<QCase> {
 
 /// x values: integers, exact halves, k ± 10^-j around integer and half boundaries, random rationals.
 fn arg() -> impl Strategy<Value = Expr> {
-    let boundary = (-50i64..=50, 0u32..=6, prop_oneof![Just(0i64), Just(1), Just(-1)], any::<bool>()).prop_map(|(k, j, d, half)| {
-        // k (+ 0.5) + d * 10^-j written as a decimal literal
-        let scale = 10i64.pow(j);
-        let mut n = k * scale * 10 + if half { 5 * scale } else { 0 };
-        n += d; // one unit in the (j+1)-th decimal place
-        let neg = n < 0;
+    // k (+ 0.5) + d * 10^-(j+1) written as a decimal literal: one unit in the last place next to an integer or a
+    // half, with up to 40 decimal places and integer parts up to 10^17 (far beyond what a float can tell apart)
+    let boundary = (prop_oneof![4 => -50i64..=50, 1 => Just(5_000_000_000_000_000i64), 1 => Just(-9_007_199_254_740_993i64), 1 => Just(99_999_999_999_999_999i64)], prop_oneof![3 => 0u32..=6, 2 => 7u32..=40], prop_oneof![Just(0i64), Just(1), Just(-1)], any::<bool>()).prop_map(|(k, j, d, half)| {
+        use num::{BigInt, Signed};
+        let scale = num::pow(BigInt::from(10), j as usize);
+        let ten = BigInt::from(10);
+        let mut n = BigInt::from(k) * &scale * &ten + if half { BigInt::from(5) * &scale } else { BigInt::from(0) };
+        n += BigInt::from(d); // one unit in the (j+1)-th decimal place
+        let neg = n.is_negative();
         let a = n.abs();
-        let ip = a / (scale * 10);
-        let fp = a % (scale * 10);
-        let text = format!("{}{}.{:0width$}", if neg { "-" } else { "" }, ip, fp, width = (j + 1) as usize);
+        let unit = &scale * &ten;
+        let ip = &a / &unit;
+        let fp = &a % &unit;
+        let text = format!("{}{}.{:0>width$}", if neg { "-" } else { "" }, ip, fp.to_string(), width = (j + 1) as usize);
         Expr::Num(Lit::from_text(&text))
     });
     let frac = (-2000i64..=2000, 1i64..=64).prop_map(|(p, q)| Expr::Paren(Box::new(Expr::bin(Op::Div, Expr::num(p), Expr::num(q)))));
@@ -182,7 +186,7 @@ fn rcase() -> impl Strategy<Value = RCase> {
 }
 
 pub fn run_check(ctx: &Ctx) {
-    ctx.set_rule("floor/ceil/round/round(x, n) over integers, exact halves, values one unit in the last place around integer and half boundaries, random decimals and fractions (p / q), values next to machine-word boundaries ((2^k + j) / 10^p for k in 15..128), with and without a unit, digits -6..6 written as a literal or as a nested call / expression, calls nested in other calls, arities 0..4; oracle = mathematical definitions (div_floor; round = sign*floor(|x|+1/2)) on exact rationals; the result must be in the argument's unit; wrong arity must be an error; non-trivial = negative non-integer, exact half, digits != 0 or arity error; distinct by query text");
+    ctx.set_rule("floor/ceil/round/round(x, n) over integers, exact halves, values one unit in the last place (up to 40 decimal places, integer parts up to 10^17) around integer and half boundaries, random decimals and fractions (p / q), values next to machine-word boundaries ((2^k + j) / 10^p for k in 15..128), with and without a unit, digits -6..6 written as a literal or as a nested call / expression, calls nested in other calls, arities 0..4; oracle = mathematical definitions (div_floor; round = sign*floor(|x|+1/2)) on exact rationals; the result must be in the argument's unit; wrong arity must be an error; non-trivial = negative non-integer, exact half, digits != 0 or arity error; distinct by query text");
     let corpus: Vec<(String, QCase)> = load_corpus("C10");
     let cases: Vec<QCase> = corpus.into_iter().map(|c| c.1).collect();
     ctx.run_list("corpus", &cases, |c| judge(shared_db(), c), |c| to_json(c));
